@@ -198,6 +198,43 @@ def _read_tables() -> dict[str, dict[str, int | None]]:
     }
 
 
+def _size_op(node: ast.AST, left: str, right: str, what: str) -> str:
+    """Operator of the comparison(s) `<left> <op> <right>` in `node` (guards that refuse): gt | ge."""
+    found = [c for c in ast.walk(node) if isinstance(c, ast.Compare) and len(c.ops) == 1
+             and ast.unparse(c.left) == left and ast.unparse(c.comparators[0]) == right]
+    if not found:
+        raise Shape(f"{what}: no comparison `{left} <op> {right}`")
+    ops = {{ast.Gt: "gt", ast.GtE: "ge"}.get(type(c.ops[0])) for c in found}
+    if None in ops:
+        raise Shape(f"{what}: unexpected operator in {[ast.unparse(c) for c in found]}")
+    return "ge" if "ge" in ops else "gt"   # several guards on the same quantity: one `>=` is enough to refuse at the cap
+
+
+def _size_ops() -> dict[str, str]:
+    """The refusing comparisons of the request-size guards (wire size, decoded size per coding)."""
+    mw = _func(_class(_tree(f"{SRV}/_middleware.py"), "_MaxRequestBytesMiddleware"), "process_request")
+    codec = _tree("vgi_rpc/_codec.py")
+    z = _func(codec, "_decompress_body_zstd")
+    g = _func(codec, "_decompress_body_gzip")
+    out = {
+        "wire": _size_op(mw, "cl", "self._max_bytes", "size cap (Content-Length)"),
+        "chunked": _size_op(mw, "len(body)", "self._max_bytes", "size cap (chunked)"),
+        "zstdSized": _size_op(z, "declared", "max_output_size", "zstd declared size"),
+        "zstdStream": _size_op(z, "total", "max_output_size", "zstd streaming"),
+        "gzip": _size_op(g, "total", "max_output_size", "gzip streaming"),
+    }
+    # the refusals raise DecompressionLimitExceeded, which the middleware maps to the `encBomb` refusal
+    for fn in (z, g):
+        for c in [c for c in ast.walk(fn) if isinstance(c, ast.If) and "max_output_size" in ast.unparse(c.test) and any(isinstance(x, ast.Raise) for x in c.body)]:
+            if "DecompressionLimitExceeded" not in ast.unparse(c.body[0]):
+                raise Shape(f"{fn.name}: a size guard does not raise DecompressionLimitExceeded")
+    # the compression middleware hands max_request_bytes down as the output cap
+    comp = _func(_class(_tree(f"{SRV}/_middleware.py"), "_CompressionMiddleware"), "process_request")
+    if "max_output_size=self._max_decompressed_bytes" not in ast.unparse(comp):
+        raise Shape("compression middleware does not pass max_decompressed_bytes as the output cap")
+    return out
+
+
 def _deser_probes() -> list[tuple[str, type]]:
     import pyarrow as pa
 
@@ -534,6 +571,7 @@ def emit() -> dict[str, str]:
     translated, to, marker = _set_http_status()
     wraps_batch, wraps_kwargs, wraps_empty = _read_request_wraps()
     deser = _deser_tables()
+    sops = _size_ops()
     order, ct_status, nf_status, ct_op = _resolve_method()
     guards = {c: _resource_guard(c) for c in ("_RpcResource", "_StreamInitResource", "_ExchangeResource")}
     mw = _middleware_order()
@@ -597,6 +635,15 @@ def initGuardStatus : Nat := {guards["_StreamInitResource"][1]}
 def exchangeGuardOp : CmpOp := .{guards["_ExchangeResource"][0]}
 def exchangeGuardStatus : Nat := {guards["_ExchangeResource"][1]}
 
+/-- refusing comparisons of the request-size guards: `cl <op> max`, `len(body) <op> max` (_MaxRequestBytesMiddleware);
+    `declared <op> max_output_size`, `total <op> max_output_size` (vgi_rpc/_codec.py, zstd and gzip) -/
+def wireSizeOp : SizeOp := .{sops["wire"]}
+def chunkedSizeOp : SizeOp := .{sops["chunked"]}
+def decodeSizeOp : Coding → SizeOp
+  | .gzip => .{sops["gzip"]}
+  | .zstdSized => .{sops["zstdSized"]}
+  | .zstdStream => .{sops["zstdStream"]}
+
 /-- `make_wsgi_app`: middleware classes in registration order (= `process_request` order):
     {", ".join(mw)} -/
 def middlewareOrder : List Mw := {mw_terms}
@@ -646,6 +693,9 @@ def tables : Tables where
   initGuardStatus := initGuardStatus
   exchangeGuardOp := exchangeGuardOp
   exchangeGuardStatus := exchangeGuardStatus
+  wireSizeOp := wireSizeOp
+  chunkedSizeOp := chunkedSizeOp
+  decodeSizeOp := decodeSizeOp
   middlewareOrder := middlewareOrder
   sizeCap := sizeCap
   encUnsupported := encUnsupported
